@@ -224,6 +224,23 @@ static std::string step(Line const& l)
         auto s = sc::year{static_cast<int>(l.i("a"))} - sc::year{static_cast<int>(l.i("b"))};
         return out(std::to_string(e.count()), std::to_string(s.count()));
     }
+    if (l.op == "ym_diff") {       // year_month - year_month, and ym2 + (ym1 - ym2); "missing" when the operator does not exist
+        auto y1 = static_cast<int>(l.i("y1"));
+        auto m1 = static_cast<unsigned>(l.i("m1"));
+        auto y2 = static_cast<int>(l.i("y2"));
+        auto m2 = static_cast<unsigned>(l.i("m2"));
+        auto f = [](auto const& a, auto const& b) -> std::string {
+            if constexpr (requires { (a - b).count(); }) {
+                auto const k = a - b;
+                auto const r = b + k;
+                return std::to_string(k.count()) + "," + t2(int{r.year()}, unsigned{r.month()});
+            } else {
+                return "missing";
+            }
+        };
+        return out(f(ec::year_month{ec::year{y1}, ec::month{m1}}, ec::year_month{ec::year{y2}, ec::month{m2}}),
+            f(sc::year_month{sc::year{y1}, sc::month{m1}}, sc::year_month{sc::year{y2}, sc::month{m2}}));
+    }
     if (l.op == "incdec") {   // ++x, x++, --x, x-- of day / month / year / weekday; iso_encoding
         auto v = static_cast<int>(l.i("v"));
         auto what = l.str("what");
